@@ -107,41 +107,30 @@ def renderSegs (l : List Seg) : String :=
 
 def pathTagValue (refs : List Id) : String := "(" ++ ";".intercalate (refs.map renderId) ++ ")"
 
-/-- `FindFeatureByID` + tags + geometry skeleton, the same for both worlds -/
-def findAnswer (w : World) (x : Id) : String :=
-  match x.t with
-  | .point =>
-    match w.points.find? (·.id = x) with
-    | some p => s!"{renderId x} {renderTags p.tags} pt:{p.loc}"
-    | none => "nil"
-  | .path =>
-    match w.paths.find? (·.id = x) with
-    | some q =>
-      let tags := q.tags.map fun (k, v) => if k == "path" then (k, pathTagValue q.refs) else (k, v)
-      let g := ";".intercalate (q.refs.map fun r => renderId r ++ "@" ++ ((locOf w.points r).getD "?"))
-      s!"{renderId x} {renderTags tags} path:{g}"
-    | none => "nil"
-  | .area =>
-    match w.areas.find? (·.id = x) with
-    | some a =>
-      let g := "|".intercalate (a.polys.map fun ids => "(" ++ ";".intercalate (ids.map renderId) ++ ")")
-      s!"{renderId x} {renderTags a.tags} area:{g}"
-    | none => "nil"
-  | .relation =>
-    match w.relations.find? (·.id = x) with
-    | some r =>
-      let g := ";".intercalate (r.members.map fun (m, role) => renderId m ++ ":" ++ role)
-      s!"{renderId x} {renderTags r.tags} rel:{g}"
-    | none => "nil"
+/-- a looked-up feature with its tags and geometry skeleton -/
+def findAnswer (w : World) (r : Option Rec) : String :=
+  match r with
+  | none => "nil"
+  | some (.point p) => s!"{renderId p.id} {renderTags p.tags} pt:{p.loc}"
+  | some (.path q) =>
+    let tags := q.tags.map fun (k, v) => if k == "path" then (k, pathTagValue q.refs) else (k, v)
+    let g := ";".intercalate (q.refs.map fun r => renderId r ++ "@" ++ ((locOf w.points r).getD "?"))
+    s!"{renderId q.id} {renderTags tags} path:{g}"
+  | some (.area a) =>
+    let g := "|".intercalate (a.polys.map fun ids => "(" ++ ";".intercalate (ids.map renderId) ++ ")")
+    s!"{renderId a.id} {renderTags a.tags} area:{g}"
+  | some (.relation r) =>
+    let g := ";".intercalate (r.members.map fun (m, role) => renderId m ++ ":" ++ role)
+    s!"{renderId r.id} {renderTags r.tags} rel:{g}"
 
 /-- the model's answer to one observation of the world dump; `none` = not predicted by the model
 (search results, tokens, polygon vertices) -/
 def answer (w : World) (basic : Bool) (key : List String) : Option String :=
   match key with
-  | ["ids"] => some (renderIds (allIds w))
-  | ["find", x] => (parseId x).map (findAnswer w)
-  | ["has", x] => (parseId x).map fun i => toString (hasFeature w i)
-  | ["loc", x] => (parseId x).map fun i => (if i.t = .point then (locOf w.points i) else none).getD "err"
+  | ["ids"] => some (renderIds (if basic then idsB w else idsC w 4))
+  | ["find", x] => (parseId x).map fun i => findAnswer w (if basic then findB w i else findC w i)
+  | ["has", x] => (parseId x).map fun i => toString (if basic then hasB w i else hasC w i)
+  | ["loc", x] => (parseId x).map fun i => (if basic then locB w i else locC w i).getD "err"
   | ["refs", x] => (parseId x).map fun i => renderIds (if basic then refsB w i [] else refsC w i [])
   | ["refsp", x] => (parseId x).map fun i => renderIds (if basic then refsB w i [.path] else refsC w i [.path])
   | ["rels", x] => (parseId x).map fun i => renderIds (if basic then relsB w i else relsC w i)
